@@ -25,72 +25,83 @@ open Ford Ford.Use
     the standard's rules.  The excluded defect classes are explicit and decidable:
     rename lists without ONLY (`NoBareRename`) and `private ::` statements about imported
     names that FORD's filter ignores (`NoEffectivePrivate`); `NoShadow` is Fortran's own
-    rule that a use-associated identifier is not redeclared. -/
+    rule that a use-associated identifier is not redeclared.  `Exports` starts from the standard's
+    accessibility of a declaration (`declAccessible`: PUBLIC / PRIVATE keyword in whatever order
+    and place, else the module default, PROTECTED irrelevant) while the code reads its single
+    `permission` slot; the class where the two differ in this direction is excluded explicitly
+    (`NoProtectedOverPrivate`, finding C06-protected-private-exported). -/
 theorem tables_sound_partial (g : List Scope) (k : Nat) (order : List Str)
     (hu : UniqueNames g) (hb : NoBareRename g) (hp : NoEffectivePrivate g) (hs : NoShadow g k)
+    (hq : NoProtectedOverPrivate g)
     (m : Scope) (hm : m ∈ g) (l : Str) (e : Ent) :
     (aget (getTabs (run k g order) m.name).pub l = some e → Exports g k m l e) ∧
     (aget (getTabs (run k g order) m.name).all l = some e → Sees g k m l e) :=
-  ⟨fun h => (sound_run g k hu hb hp hs order m hm).1 (l, e) (aget_mem _ _ _ h),
-   fun h => (sound_run g k hu hb hp hs order m hm).2 (l, e) (aget_mem _ _ _ h)⟩
+  ⟨fun h => (sound_run g k hu hb hp hs hq order m hm).1 (l, e) (aget_mem _ _ _ h),
+   fun h => (sound_run g k hu hb hp hs hq order m hm).2 (l, e) (aget_mem _ _ _ h)⟩
 
 /-- **Everything accessible is imported** (completeness), across any chain or diamond of
     re-exporting modules: when the scopes are correlated in *any* topological order of the
     USE graph (`isTopo`, what `toposort_flatten` + appended programs provide — checked on the
     real order in every run), every identifier the standard makes accessible in a scope is a
     key of its table.  Excluded defect classes: rename lists without ONLY, and only-lists
-    naming one remote entity twice (`NoRepeatedRemote`). -/
+    naming one remote entity twice (`NoRepeatedRemote`).  Every entity that is accessible by the
+    standard (`declAccessible`) is found - `public, protected` in either order, by attribute or by
+    statement, in default-public and default-private modules alike; `LegalAccess` is Fortran's
+    constraint that no entity is given both PUBLIC and PRIVATE. -/
 theorem tables_complete_partial (g : List Scope) (k : Nat) (order : List Str)
-    (hu : UniqueNames g) (hb : NoBareRename g) (hr : NoRepeatedRemote g)
+    (hu : UniqueNames g) (hb : NoBareRename g) (hr : NoRepeatedRemote g) (hl : LegalAccess g)
     (ht : isTopo g [] order = true) (m : Scope) (hm : m ∈ g) (hin : m.name ∈ order)
     (l : Str) (e : Ent) :
     (Exports g k m l e → hasKey (getTabs (run k g order) m.name).pub l) ∧
     (Sees g k m l e → hasKey (getTabs (run k g order) m.name).all l) :=
-  ⟨fun h => (complete_run g k hu hb hr order ht m hm hin).1 l e h,
-   fun h => (complete_run g k hu hb hr order ht m hm hin).2 l e h⟩
+  ⟨fun h => (complete_run g k hu hb hr hl order ht m hm hin).1 l e h,
+   fun h => (complete_run g k hu hb hr hl order ht m hm hin).2 l e h⟩
 
 /-- **Exactly the accessible names, resolved to the exporting module's entity**: in a legal
     program (no identifier denotes two entities in the scope) the name table *is* the
     standard's relation: `all_*[l] = e ↔ Sees s l e`. -/
 theorem use_exact_partial (g : List Scope) (k : Nat) (order : List Str)
     (hu : UniqueNames g) (hb : NoBareRename g) (hr : NoRepeatedRemote g)
-    (hp : NoEffectivePrivate g) (hs : NoShadow g k) (ht : isTopo g [] order = true)
+    (hp : NoEffectivePrivate g) (hs : NoShadow g k) (hl : LegalAccess g)
+    (hq : NoProtectedOverPrivate g) (ht : isTopo g [] order = true)
     (m : Scope) (hm : m ∈ g) (hin : m.name ∈ order)
     (hamb : ∀ l e e', Sees g k m l e → Sees g k m l e' → e = e') (l : Str) (e : Ent) :
     aget (getTabs (run k g order) m.name).all l = some e ↔ Sees g k m l e := by
   constructor
-  · exact (tables_sound_partial g k order hu hb hp hs m hm l e).2
+  · exact (tables_sound_partial g k order hu hb hp hs hq m hm l e).2
   · intro h
-    obtain ⟨e', _, he'⟩ := hasKey_mem _ _ ((tables_complete_partial g k order hu hb hr ht m hm hin l e).2 h)
-    have := (tables_sound_partial g k order hu hb hp hs m hm l e').2 he'
+    obtain ⟨e', _, he'⟩ := hasKey_mem _ _ ((tables_complete_partial g k order hu hb hr hl ht m hm hin l e).2 h)
+    have := (tables_sound_partial g k order hu hb hp hs hq m hm l e').2 he'
     rw [he', hamb l e e' h this]
 
 /-- ... and a module's `pub_*` table is exactly what it exports (own public entities and
     re-exports, restricted by its default accessibility and access statements). -/
 theorem export_exact_partial (g : List Scope) (k : Nat) (order : List Str)
     (hu : UniqueNames g) (hb : NoBareRename g) (hr : NoRepeatedRemote g)
-    (hp : NoEffectivePrivate g) (hs : NoShadow g k) (ht : isTopo g [] order = true)
+    (hp : NoEffectivePrivate g) (hs : NoShadow g k) (hl : LegalAccess g)
+    (hq : NoProtectedOverPrivate g) (ht : isTopo g [] order = true)
     (m : Scope) (hm : m ∈ g) (hin : m.name ∈ order)
     (hamb : ∀ l e e', Exports g k m l e → Exports g k m l e' → e = e') (l : Str) (e : Ent) :
     aget (getTabs (run k g order) m.name).pub l = some e ↔ Exports g k m l e := by
   constructor
-  · exact (tables_sound_partial g k order hu hb hp hs m hm l e).1
+  · exact (tables_sound_partial g k order hu hb hp hs hq m hm l e).1
   · intro h
-    obtain ⟨e', _, he'⟩ := hasKey_mem _ _ ((tables_complete_partial g k order hu hb hr ht m hm hin l e).1 h)
-    have := (tables_sound_partial g k order hu hb hp hs m hm l e').1 he'
+    obtain ⟨e', _, he'⟩ := hasKey_mem _ _ ((tables_complete_partial g k order hu hb hr hl ht m hm hin l e).1 h)
+    have := (tables_sound_partial g k order hu hb hp hs hq m hm l e').1 he'
     rw [he', hamb l e e' h this]
 
 /-- **Regardless of the order in which source files are read**: any two topological orders
     of the USE graph give every scope the same name table. -/
 theorem order_independent_partial (g : List Scope) (k : Nat) (o₁ o₂ : List Str)
     (hu : UniqueNames g) (hb : NoBareRename g) (hr : NoRepeatedRemote g)
-    (hp : NoEffectivePrivate g) (hs : NoShadow g k)
+    (hp : NoEffectivePrivate g) (hs : NoShadow g k) (hl : LegalAccess g)
+    (hq : NoProtectedOverPrivate g)
     (h₁ : isTopo g [] o₁ = true) (h₂ : isTopo g [] o₂ = true)
     (m : Scope) (hm : m ∈ g) (hi₁ : m.name ∈ o₁) (hi₂ : m.name ∈ o₂)
     (hamb : ∀ l e e', Sees g k m l e → Sees g k m l e' → e = e') (l : Str) :
     aget (getTabs (run k g o₁) m.name).all l = aget (getTabs (run k g o₂) m.name).all l := by
-  have e1 := use_exact_partial g k o₁ hu hb hr hp hs h₁ m hm hi₁ hamb l
-  have e2 := use_exact_partial g k o₂ hu hb hr hp hs h₂ m hm hi₂ hamb l
+  have e1 := use_exact_partial g k o₁ hu hb hr hp hs hl hq h₁ m hm hi₁ hamb l
+  have e2 := use_exact_partial g k o₂ hu hb hr hp hs hl hq h₂ m hm hi₂ hamb l
   cases h : aget (getTabs (run k g o₁) m.name).all l with
   | some e => exact ((e2 e).2 ((e1 e).1 h)).symm
   | none =>
@@ -108,6 +119,51 @@ theorem private_never_imported (g : List Scope) (k : Nat) (order : List Str) (hu
     (aget (getTabs (run k g order) m.name).all l = some e → PubEnt g k e ∨ OwnEnt k m e) :=
   ⟨fun h => (priv_run g k hu order m hm).1 (l, e) (aget_mem _ _ _ h),
    fun h => (priv_run g k hu order m hm).2 (l, e) (aget_mem _ _ _ h)⟩
+
+/-- **Private entities are never imported**, with "private" read as the standard's accessibility
+    (PRIVATE attribute or statement, or default-private module without PUBLIC; PROTECTED does not
+    make an entity accessible): outside the defect class `NoProtectedOverPrivate`, for every USE
+    form (the other defect classes included) and every correlation order, whatever sits in a
+    `pub_*` / `all_*` table is a declaration that `declAccessible` admits, or the scope's own. -/
+theorem private_never_imported_std_partial (g : List Scope) (k : Nat) (order : List Str)
+    (hu : UniqueNames g) (hq : NoProtectedOverPrivate g) (m : Scope) (hm : m ∈ g) (l : Str) (e : Ent) :
+    (aget (getTabs (run k g order) m.name).pub l = some e → AccessibleEnt g k e) ∧
+    (aget (getTabs (run k g order) m.name).all l = some e → AccessibleEnt g k e ∨ OwnEnt k m e) := by
+  have h := private_never_imported g k order hu m hm l e
+  exact ⟨fun h1 => accessibleEnt_of_pubEnt g k e hq (h.1 h1),
+         fun h1 => (h.2 h1).imp (accessibleEnt_of_pubEnt g k e hq) id⟩
+
+/-- **What a module exports of its own declarations is decided by PUBLIC / PRIVATE / the default,
+    not by PROTECTED** - for every list of access keywords in every order (attribute list, then
+    statements), in default-public and default-private modules: the filter of `_cleanup` over
+    FORD's single permission slot (the keyword met last) equals the standard's accessibility,
+    outside the defect class and for legal keyword sets. -/
+theorem own_export_filter_exact_partial (m : Scope) (d : Decl)
+    (hl : ¬ (Perm.pub ∈ d.accs ∧ Perm.priv ∈ d.accs)) (hq : ¬ ProtectedOverPrivate m d) :
+    declExported m d = declAccessible m d :=
+  declExported_eq_accessible m d hl hq
+
+/-- ... in particular an entity that is PUBLIC and PROTECTED is exported whatever the default
+    accessibility of its module and wherever PROTECTED stands (`integer, public, protected :: x`,
+    `integer, protected, public :: x`, `public :: x` + `protected :: x` in either order). -/
+theorem public_protected_exported (m : Scope) (d : Decl) (hp : Perm.pub ∈ d.accs) (hn : Perm.priv ∉ d.accs) :
+    declExported m d = true := by
+  have ha : declAccessible m d = true := by simp [declAccessible, hp]
+  rw [declExported_eq_accessible m d (fun h => hn h.2) (fun h => by have h2 := h.2; rw [ha] at h2; cases h2), ha]
+
+/-- The export filter of the model *is* the string table of the source: `_cleanup` keeps
+    `item.permission in exportedPermissions` (regenerated from ford/sourceform.py on every run),
+    the slot holds the word of the keyword met last (`declPerm`), and every statement of
+    `line_to_variables` / `process_attribs` that writes an access keyword into the slot accepts
+    exactly PUBLIC, PRIVATE and PROTECTED (so each of the three overwrites the others). -/
+theorem export_filter_is_source_table :
+    (∀ m d, declExported m d = Generated.C06.exportedPermissions.contains (declPerm m d).word) ∧
+    (∀ l ∈ Generated.C06.slotKeywordLists, l = [Perm.pub.word, Perm.priv.word, Perm.prot.word]) ∧
+    Generated.C06.slotKeywordLists ≠ [] := by
+  refine ⟨?_, by decide, by decide⟩
+  intro m d
+  unfold declExported
+  cases declPerm m d <;> decide
 
 /-- With ONLY, the local name FORD chooses is the standard's: `used_names` against
     `Admits`, for every only-list without a repeated remote name. -/
@@ -181,7 +237,8 @@ theorem nested_use_exact_partial (g : List Scope) (k : Nat) (st : State) (hostAl
     identifiers stay accessible.  `hostsFirst`: hosts are correlated before their children. -/
 theorem nested_tables_exact_partial (g : List Scope) (ns : List Nested) (k : Nat) (order : List Str)
     (hu : UniqueNames g) (hb : NoBareRename g) (hr : NoRepeatedRemote g) (hp : NoEffectivePrivate g)
-    (hs : NoShadow g k) (hd : NestedDisjoint g ns) (hpw : NestedNamesDistinct ns)
+    (hs : NoShadow g k) (hl : LegalAccess g) (hq : NoProtectedOverPrivate g)
+    (hd : NestedDisjoint g ns) (hpw : NestedNamesDistinct ns)
     (ht : isTopoN g ns [] order = true)
     (x : Nested) (hx : x ∈ ns) (m : Scope) (hm : m ∈ g) (hroot : m.name = x.root) (hin : x.root ∈ order)
     (hhf : hostsFirst [x.root] (ns.filter (fun y => y.root == x.root)))
@@ -192,14 +249,14 @@ theorem nested_tables_exact_partial (g : List Scope) (ns : List Nested) (k : Nat
     (hk : SameKindHiding g k (getTabs (runN k g ns order) x.host).all x.scope) (l : Str) (e : Ent) :
     aget (getTabs (runN k g ns order) x.scope.name).all l = some e ↔
       SeesIn g k (fun l e => aget (getTabs (runN k g ns order) x.host).all l = some e) x.scope l e :=
-  nested_run_exact g ns k order hu hb hr hp hs hd hpw ht x hx m hm hroot hin hhf hb' hr' hs' hamb hk l e
+  nested_run_exact g ns k order hu hb hr hp hs hl hq hd hpw ht x hx m hm hroot hin hhf hb' hr' hs' hamb hk l e
 
 private def hM0 : Scope :=
   { name := "m0".toList, isMod := true, defPub := true, pubNames := [], privNames := [],
-    decls := [{ name := ['v'], kind := 3, acc := none }, { name := ['u'], kind := 3, acc := none }], uses := [] }
+    decls := [{ name := ['v'], kind := 3, accs := [] }, { name := ['u'], kind := 3, accs := [] }], uses := [] }
 private def hM1 : Scope :=
   { name := "m1".toList, isMod := true, defPub := true, pubNames := [], privNames := [],
-    decls := [{ name := ['v'], kind := 3, acc := none }, { name := ['w'], kind := 3, acc := none }], uses := [] }
+    decls := [{ name := ['v'], kind := 3, accs := [] }, { name := ['w'], kind := 3, accs := [] }], uses := [] }
 private def hProc (rest : Str) : Nested :=
   { root := "m1".toList, host := "m1".toList,
     scope := { name := ['n'], isMod := false, defPub := true, pubNames := [], privNames := [], decls := [],
@@ -228,11 +285,11 @@ example :
     isTopoN [hM0, hM1] [hProc ", only: v".toList] [] ["m1".toList, "m0".toList] = false := by
   decide
 
-/-! ### Witnesses of the four defect classes (the replay inputs of known_findings/C06.json) -/
+/-! ### Witnesses of the defect classes (the replay inputs of known_findings/C06.json) -/
 
 private def wM0 : Scope :=
   { name := "m0".toList, isMod := true, defPub := true, pubNames := [], privNames := [],
-    decls := [{ name := ['v'], kind := 3, acc := none }], uses := [] }
+    decls := [{ name := ['v'], kind := 3, accs := [] }], uses := [] }
 private def wProg (u : UseA) : Scope :=
   { name := ['p'], isMod := false, defPub := true, pubNames := [], privNames := [], decls := [], uses := [u] }
 private def wOrder : List Str := ["m0".toList, ['p']]
@@ -248,7 +305,7 @@ theorem rename_without_only_witness :
   refine ⟨?_, by decide, by decide⟩
   refine Sees.imp (Imports.mk (n := wM0) (u := mkUse "m0".toList ", w => v".toList) (r := ['v'])
     (by simp) (by simp [wProg]) (by simp) rfl (by decide) ?_ (Or.inl (by decide)))
-  exact Exports.decl (d := { name := ['v'], kind := 3, acc := none }) (by simp) rfl (by simp [wM0]) rfl (by decide)
+  exact Exports.decl (d := { name := ['v'], kind := 3, accs := [] }) (by simp) rfl (by simp [wM0]) rfl (by decide)
 
 /-- the same input under the repaired variant: `w` is there, `v` is not -/
 theorem rename_without_only_repaired_witness :
@@ -277,7 +334,7 @@ theorem only_remote_twice_witness :
   refine ⟨?_, by decide, by decide⟩
   refine Sees.imp (Imports.mk (n := wM0) (u := mkUse "m0".toList ", only: v, w => v".toList) (r := ['v'])
     (by simp) (by simp [wProg]) (by simp) rfl (by decide) ?_ (Or.inr ⟨rfl, by rw [if_pos (by decide)]; decide⟩))
-  exact Exports.decl (d := { name := ['v'], kind := 3, acc := none }) (by simp) rfl (by simp [wM0]) rfl (by decide)
+  exact Exports.decl (d := { name := ['v'], kind := 3, accs := [] }) (by simp) rfl (by simp [wM0]) rfl (by decide)
 
 private def wM1 : Scope :=
   { name := "m1".toList, isMod := true, defPub := true, pubNames := [], privNames := [['v']],
@@ -294,6 +351,41 @@ theorem private_imported_witness :
   rcases exports_not_private h with ⟨d, hd, _⟩ | h
   · simp [wM1] at hd
   · exact h (by simp [wM1])
+
+private def wM0p (accs : List Perm) : Scope :=
+  { name := "m0".toList, isMod := true, defPub := false, pubNames := [], privNames := [],
+    decls := [{ name := ['v'], kind := 3, accs := accs }], uses := [] }
+
+/-- `integer, protected :: v` under a bare `private` statement (and `integer, private, protected
+    :: v`): private by the standard, exported by FORD and imported by `use m0`; with PRIVATE met
+    last (`protected, private`) it is not.  And the legal forms of the same module:
+    `public, protected` / `protected, public` are exported and imported. -/
+theorem protected_over_private_witness :
+    (∀ accs ∈ [[Perm.prot], [Perm.priv, Perm.prot]],
+      (¬ Exports [wM0p accs, wProg (mkUse "m0".toList [])] 3 (wM0p accs) ['v'] ("m0".toList, ['v'])) ∧
+      ProtectedOverPrivate (wM0p accs) { name := ['v'], kind := 3, accs := accs } ∧
+      aget (getTabs (run 3 [wM0p accs, wProg (mkUse "m0".toList [])] wOrder) ['p']).all ['v']
+        = some ("m0".toList, ['v'])) ∧
+    aget (getTabs (run 3 [wM0p [.prot, .priv], wProg (mkUse "m0".toList [])] wOrder) ['p']).all ['v'] = none ∧
+    (∀ accs ∈ [[Perm.pub, Perm.prot], [Perm.prot, Perm.pub]],
+      declAccessible (wM0p accs) { name := ['v'], kind := 3, accs := accs } = true ∧
+      aget (getTabs (run 3 [wM0p accs, wProg (mkUse "m0".toList [])] wOrder) ['p']).all ['v']
+        = some ("m0".toList, ['v'])) := by
+  refine ⟨?_, by decide, by decide⟩
+  intro accs haccs
+  refine ⟨?_, ?_, ?_⟩
+  · intro h
+    rcases exports_inv h with ⟨d, _, _, hd, _, hacc, _, _⟩ | ⟨_, hi, _, _⟩
+    · simp only [wM0p, List.mem_singleton] at hd
+      subst hd
+      simp only [List.mem_cons, List.not_mem_nil, or_false] at haccs
+      rcases haccs with rfl | rfl <;> revert hacc <;> decide
+    · obtain ⟨n, u, r, _, hu2, _⟩ := imports_inv hi
+      simp [wM0p] at hu2
+  · simp only [List.mem_cons, List.not_mem_nil, or_false] at haccs
+    rcases haccs with rfl | rfl <;> decide
+  · simp only [List.mem_cons, List.not_mem_nil, or_false] at haccs
+    rcases haccs with rfl | rfl <;> decide
 
 /-- the hypotheses of the theorems above are satisfiable by a non-trivial project
     (re-export through a default-private module with a rename) -/
